@@ -123,6 +123,7 @@ class Interp:
         self.track_loads = False
         self.dedupe_sites = False
         self.retry_loop_cap = 0
+        self.shared_ids = {}   # id(value) -> name of the class-level / module-level object it is
         self.trace_sites = []
         self.watch = None  # optional callable(event dict)
 
@@ -530,6 +531,11 @@ class Interp:
 
     def assign(self, target, v, frame):
         if isinstance(target, ast.Name):
+            if target.id in getattr(frame, "globals_decl", ()):
+                self.event("global_store", name=target.id, module=frame.module.name, value=v, node=target,
+                           func=frame.func.short if frame.func else None)
+                self._modconst_cache[(frame.module.name, target.id)] = v
+                return
             frame.env[target.id] = v
         elif isinstance(target, (ast.Tuple, ast.List)):
             items = ops.unpack(self, v, len(target.elts), target)
@@ -546,7 +552,8 @@ class Interp:
                     self.stats["splits"] += 1
                     v = vals[self.choose(len(vals), "attr split")]
                 self.event("store_attr", obj=obj, attr=target.attr, value=v, node=target,
-                           func=frame.func.short if frame.func else None)
+                           func=frame.func.short if frame.func else None, shared=self.shared_ids.get(id(obj)),
+                           where=self._where(target))
                 self._log_attr(obj, target.attr)
                 obj.attrs[target.attr] = v
                 if self.track_loads:
@@ -559,7 +566,8 @@ class Interp:
             obj = self.eval(target.value, frame)
             key = self.eval(target.slice, frame)
             if isinstance(obj, (dict, list)) and not is_abstract(key):
-                self.event("store_item", obj=obj, key=key, value=v, node=target)
+                self.event("store_item", obj=obj, key=key, value=v, node=target, shared=self.shared_ids.get(id(obj)),
+                           where=self._where(target), func=frame.func.short if frame.func else None)
                 try:
                     obj[key] = v
                 except (IndexError, TypeError) as e:
@@ -759,7 +767,9 @@ class Interp:
     st_ImportFrom = st_Import
 
     def st_Global(self, st, frame):
-        raise CannotEvaluate("global statement")
+        if not hasattr(frame, "globals_decl"):
+            frame.globals_decl = set()
+        frame.globals_decl.update(st.names)
 
     def st_Delete(self, st, frame):
         raise CannotEvaluate("del statement")
@@ -846,6 +856,8 @@ class Interp:
             del self._modconst_cache[key]
             raise
         self._modconst_cache[key] = v
+        if isinstance(v, (Obj, list, dict)):
+            self.shared_ids[id(v)] = f"{module.name}.{name}"
         return v
 
     def class_attr(self, cls, name):
@@ -864,6 +876,8 @@ class Interp:
         finally:
             self.cur_frame = saved
         self._class_attr_cache[key] = v
+        if isinstance(v, (Obj, list, dict)):
+            self.shared_ids[id(v)] = f"{cls.short}.{name}"
         return v
 
     def ex_Attribute(self, node, frame):
